@@ -73,6 +73,13 @@ func genC14(p *sim.Plan, r *sim.Rand, tier string) {
 		p.Horizon = at + (I+T)*1_000_000 + int64(90*time.Second)
 		// application messages before the fault, at drawn phases of the heartbeat (in half of the plans)
 		if r.Bool(0.5) && at > 10_000_000 {
+			// (as in live mode, the latency is capped then: with 150 ms +- 150 ms and long-polling, a ping
+			// queued behind a message waits for the next poll request and a healthy heartbeat round can
+			// legitimately exceed a 1 s pingTimeout - the session would end before the fault)
+			if p.C("lat_us") > 35000 {
+				p.Set("lat_us", 35000)
+				p.Set("jit_us", 5000)
+			}
 			for i := 0; i < r.Range(1, 6); i++ {
 				p.Ops = append(p.Ops, sim.Op{At: r.I64n(at), Actor: r.Intn(2), Kind: "msg", I: []int64{int64(i), int64(r.Range(0, 200))}})
 			}
